@@ -19,7 +19,7 @@ structure MissingInclude (fs : FS) (cd : List String) (raw : List Char) : Prop w
   notBlank : (stripWs raw).isEmpty = false
   isInclude : ("include ".toList).isPrefixOf (lowerL raw) = true
   shape : ∃ kw relc, splitWs (stripComment raw) = [kw, relc] ∧
-            (normRel (String.ofList (stripQuotes relc)) || normAbs (String.ofList (stripQuotes relc))) = true ∧
+            pathOk (String.ofList (stripQuotes relc)) = true ∧
             lookupPath fs (String.ofList (stripQuotes relc)) cd = none
 
 theorem go_missing_include (fs : FS) (dirs : List String) (fuel : Nat) (path : String) (cd : List String)
